@@ -15,7 +15,7 @@
    the irregular ones (Add, Mul, Subs, Derivative, Abs, Beta, Piecewise, the fdiff template,
    get_dummy, apply with its cache) are transcribed by hand below, and the fingerprints of the C++
    bodies they were transcribed from are recorded in [expected_fingerprints]. *)
-From SE Require Export Expr.Cmp C10.DiffRuleAst C10.Gen_DiffRules.
+From SE Require Export Expr.Guards C10.DiffRuleAst C10.Gen_DiffRules.
 Local Open Scope N_scope.
 
 (* ---------- construction terms ---------- *)
@@ -304,40 +304,67 @@ Definition mul_term (c : number) (factor : cx) (rest : list (expr * expr)) : cx 
   | Some p => cmul (cmul (CE (ENum c)) factor) p
   end.
 
+(* ---------- the loops of bvisit(Add), bvisit(Mul), bvisit(Subs) over already differentiated children ---------- *)
+(* bvisit(const Add&): sum of coefficient * derivative of the term *)
+Fixpoint add_sum (l : list (expr * number)) (ds : list cx) (acc : cx) : cx :=
+  match l, ds with
+  | p :: r, t :: tr => add_sum r tr (cadd acc (cmul (CE (ENum (snd p))) t))
+  | _, _ => acc
+  end.
+
+(* bvisit(const Mul&): for every entry, coef * derivative of that factor * the other factors *)
+Fixpoint mul_sum (c : number) (pre l : list (expr * expr)) (fs : list cx) (acc : cx) : cx :=
+  match l, fs with
+  | p :: r, f :: fr => mul_sum c (pre ++ [p]) r fr (cadd acc (mul_term c f (pre ++ r)))
+  | _, _ => acc
+  end.
+
+(* pairs up the derivatives of bases and exponents (computed in the order base, exponent) *)
+Fixpoint entry_diffs (l : list (expr * expr)) (ds : list cx) : list cx :=
+  match l, ds with
+  | p :: r, db :: dex :: dr => entry_diff (fst p) (snd p) db dex :: entry_diffs r dr
+  | _, _ => []
+  end.
+
+(* bvisit(const Subs&): the loop over the dictionary; ts = derivatives of the values with respect to
+   x, ks = derivatives of the argument with respect to the keys *)
+Fixpoint subs_loop (self x : expr) (dict l : list (expr * expr)) (ts ks : list cx) (acc : cx) : cx :=
+  match l, ts, ks with
+  | p :: r, t :: tr, k :: kr =>
+      if is_sym (fst p) then subs_loop self x dict r tr kr (cadd acc (cmul t (csubst k dict)))
+      else cifzero t (subs_loop self x dict r tr kr acc) (CDeriv (CE self) [CE x])
+  | _, _, _ => acc
+  end.
+Definition subs_rule (self x a : expr) (d : list (expr * expr)) (da : cx) (ts ks : list cx) : cx :=
+  let d0 := if existsb (fun p => expr_eqb (fst p) x) d then czero else csubst da d in
+  subs_loop self x d d ts ks d0.
+
+Definition pw_rule (l : list (expr * expr)) (ds : list cx) : cx := CPw (combine ds (map snd l)).
+
 (* ---------- DiffVisitor without cache ---------- *)
-Fixpoint diff (e x : expr) {struct e} : cx :=
+Fixpoint diffm (m : symmode) (e x : expr) {struct e} : cx :=
   match e with
   | ENum _ | EConst _ => czero
-  | ESym _ | EDummy _ _ => if is_var x e then CE e_one else czero
-  | EAdd _ d =>
-      fold_left (fun acc p => cadd acc (cmul (CE (ENum (snd p))) (diff (fst p) x))) d czero
+  | ESym _ | EDummy _ _ => if is_var_mode m x e then CE e_one else czero
+  | EAdd _ d => add_sum d (map (fun p => diffm m (fst p) x) d) czero
   | EMul c d =>
-      (fix go (acc : cx) (pre l : list (expr * expr)) {struct l} : cx :=
-         match l with
-         | [] => acc
-         | p :: r =>
-             let factor := entry_diff (fst p) (snd p) (diff (fst p) x) (diff (snd p) x) in
-             go (cadd acc (mul_term c factor (pre ++ r))) (pre ++ [p]) r
-         end) czero [] d
-  | EPow b ex => pow_rule (CE e) b ex (diff b x) (diff ex x)
-  | EF1 code a => f1_rule code e a (diff a x) x
-  | EF2 code a b => f2_rule code e a b (diff a x) (diff b x) x
-  | EFN code l => fn_rule code e l (map (fun a => diff a x) l) x
-  | EFunSym _ l => fdiff e TC_FunctionSymbol l (map (fun a => diff a x) l) x
-  | EDeriv a syms => deriv_rule a syms (diff a x) x
+      mul_sum c [] d
+              (entry_diffs d (flat_map (fun p => [diffm m (fst p) x; diffm m (snd p) x]) d)) czero
+  | EPow b ex => pow_rule (CE e) b ex (diffm m b x) (diffm m ex x)
+  | EF1 code a => f1_rule code e a (diffm m a x) x
+  | EF2 code a b => f2_rule code e a b (diffm m a x) (diffm m b x) x
+  | EFN code l => fn_rule code e l (map (fun a => diffm m a x) l) x
+  | EFunSym _ l => fdiff e TC_FunctionSymbol l (map (fun a => diffm m a x) l) x
+  | EDeriv a syms => deriv_rule a syms (diffm m a x) x
   | ESubs a d =>
-      let d0 := if existsb (fun p => expr_eqb (fst p) x) d then czero else csubst (diff a x) d in
-      (fix go (acc : cx) (l : list (expr * expr)) {struct l} : cx :=
-         match l with
-         | [] => acc
-         | p :: r =>
-             let t := diff (snd p) x in
-             if is_sym (fst p) then go (cadd acc (cmul t (csubst (diff a (fst p)) d))) r
-             else cifzero t (go acc r) (CDeriv (CE e) [CE x])
-         end) d0 d
-  | EPw l => CPw (map (fun p => (diff (fst p) x, snd p)) l)
+      subs_rule e x a d (diffm m a x) (map (fun p => diffm m (snd p) x) d)
+                (map (fun p => diffm m a (fst p)) d)
+  | EPw l => pw_rule l (map (fun p => diffm m (fst p) x) l)
   | ELex _ _ _ | EBool _ | EInterval _ _ _ _ | EAtom _ => CErr EXN_SYMENGINE
   end.
+
+(* the visitor as the current source has it *)
+Definition diff : expr -> expr -> cx := diffm sym_mode.
 
 (* ---------- DiffVisitor with its `visited` cache as explicit state ---------- *)
 Definition cache := list (expr * cx).
@@ -358,75 +385,107 @@ Section MapC.
 End MapC.
 Arguments mapc {A} f l st.
 
-Fixpoint diffc (e x : expr) (st : cache) {struct e} : cx * cache :=
+Section MapC2.
+  Variable f : expr -> cache -> cx * cache.
+  Fixpoint mapc2 (l : list (expr * expr)) (st : cache) : list cx * cache :=
+    match l with
+    | [] => ([], st)
+    | p :: r =>
+        let '(v1, s1) := f (fst p) st in
+        let '(v2, s2) := f (snd p) s1 in
+        let '(vs, s3) := mapc2 r s2 in (v1 :: v2 :: vs, s3)
+    end.
+End MapC2.
+
+(* apply(b): look b up in `visited`; otherwise visit it and remember the result.  (Values the
+   visitor constructs itself are not sub-trees of the input and are not modelled as cache keys.) *)
+Fixpoint diffcm (m : symmode) (e x : expr) (st : cache) {struct e} : cx * cache :=
   match lookupc e st with
   | Some v => (v, st)
   | None =>
       let '(v, st') :=
         match e with
         | ENum _ | EConst _ => (czero, st)
-        | ESym _ | EDummy _ _ => (if is_var x e then CE e_one else czero, st)
+        | ESym _ | EDummy _ _ => (if is_var_mode m x e then CE e_one else czero, st)
         | EAdd _ d =>
-            fold_left (fun (a : cx * cache) p =>
-                         let '(t, s) := diffc (fst p) x (snd a) in
-                         (cadd (fst a) (cmul (CE (ENum (snd p))) t), s)) d (czero, st)
+            let '(ds, s1) := mapc (fun p => diffcm m (fst p) x) d st in (add_sum d ds czero, s1)
         | EMul c d =>
-            (fix go (acc : cx) (pre l : list (expr * expr)) (s : cache) {struct l} : cx * cache :=
-               match l with
-               | [] => (acc, s)
-               | p :: r =>
-                   let '(db, s1) := diffc (fst p) x s in
-                   let '(dex, s2) := diffc (snd p) x s1 in
-                   go (cadd acc (mul_term c (entry_diff (fst p) (snd p) db dex) (pre ++ r)))
-                      (pre ++ [p]) r s2
-               end) czero [] d st
+            let '(ds, s1) := mapc2 (fun a => diffcm m a x) d st in
+            (mul_sum c [] d (entry_diffs d ds) czero, s1)
         | EPow b ex =>
-            let '(db, s1) := diffc b x st in
-            let '(dex, s2) := diffc ex x s1 in
+            let '(db, s1) := diffcm m b x st in
+            let '(dex, s2) := diffcm m ex x s1 in
             (pow_rule (CE e) b ex db dex, s2)
-        | EF1 code a => let '(da, s1) := diffc a x st in (f1_rule code e a da x, s1)
+        | EF1 code a => let '(da, s1) := diffcm m a x st in (f1_rule code e a da x, s1)
         | EF2 code a b =>
-            let '(da, s1) := diffc a x st in
-            let '(db, s2) := diffc b x s1 in
+            let '(da, s1) := diffcm m a x st in
+            let '(db, s2) := diffcm m b x s1 in
             (f2_rule code e a b da db x, s2)
-        | EFN code l => let '(dl, s1) := mapc (fun a => diffc a x) l st in (fn_rule code e l dl x, s1)
+        | EFN code l => let '(dl, s1) := mapc (fun a => diffcm m a x) l st in (fn_rule code e l dl x, s1)
         | EFunSym _ l =>
-            let '(dl, s1) := mapc (fun a => diffc a x) l st in (fdiff e TC_FunctionSymbol l dl x, s1)
-        | EDeriv a syms => let '(da, s1) := diffc a x st in (deriv_rule a syms da x, s1)
+            let '(dl, s1) := mapc (fun a => diffcm m a x) l st in (fdiff e TC_FunctionSymbol l dl x, s1)
+        | EDeriv a syms => let '(da, s1) := diffcm m a x st in (deriv_rule a syms da x, s1)
         | ESubs a d =>
-            let '(d0, s0) :=
-              if existsb (fun p => expr_eqb (fst p) x) d then (czero, st)
-              else let '(da, s1) := diffc a x st in (csubst da d, s1) in
-            (fix go (acc : cx) (l : list (expr * expr)) (s : cache) {struct l} : cx * cache :=
-               match l with
-               | [] => (acc, s)
-               | p :: r =>
-                   let '(t, s1) := diffc (snd p) x s in
-                   if is_sym (fst p) then
-                     (* the free function diff(arg, key): a new visitor with an empty cache *)
-                     go (cadd acc (cmul t (csubst (fst (diffc a (fst p) [])) d))) r s1
-                   else
-                     let '(rest, s2) := go acc r s1 in
-                     (cifzero t rest (CDeriv (CE e) [CE x]), s2)
-               end) d0 d s0
+            let '(da, s1) := diffcm m a x st in
+            let '(ts, s2) := mapc (fun p => diffcm m (snd p) x) d s1 in
+            (* the free function diff(arg, key): a new visitor with an empty cache *)
+            (subs_rule e x a d da ts (map (fun p => fst (diffcm m a (fst p) [])) d), s2)
         | EPw l =>
-            let '(ts, s1) :=
-              (fix go (l : list (expr * expr)) (s : cache) {struct l} : list (cx * expr) * cache :=
-                 match l with
-                 | [] => ([], s)
-                 | p :: r =>
-                     let '(t, s1) := diffc (fst p) x s in
-                     let '(ts, s2) := go r s1 in ((t, snd p) :: ts, s2)
-                 end) l st in
-            (CPw ts, s1)
+            let '(ds, s1) := mapc (fun p => diffcm m (fst p) x) l st in (pw_rule l ds, s1)
         | ELex _ _ _ | EBool _ | EInterval _ _ _ _ | EAtom _ => (CErr EXN_SYMENGINE, st)
         end in
       (v, (e, v) :: st')
   end.
+Definition diffc : expr -> expr -> cache -> cx * cache := diffcm sym_mode.
 
 (* diff(arg, x, cache) *)
 Definition diff_top (cache_on : bool) (e x : expr) : cx :=
   if cache_on then fst (diffc e x []) else diff e x.
+
+(* the leaves of e are recognised as "the variable" exactly when they are eq to x
+   (holds for every e when bvisit(const Symbol&) compares with eq; for the comparison by name it
+   excludes trees with another symbol of the same name) *)
+Fixpoint var_agree (m : symmode) (x e : expr) : bool :=
+  match e with
+  | ESym _ | EDummy _ _ => Bool.eqb (is_var_mode m x e) (expr_eqb x e)
+  | ENum _ | EConst _ | EBool _ | EAtom _ => true
+  | EAdd _ d => forallb (fun p => var_agree m x (fst p)) d
+  | EMul _ d => forallb (fun p => var_agree m x (fst p) && var_agree m x (snd p)) d
+  | EPow b ex => var_agree m x b && var_agree m x ex
+  | EF1 _ a => var_agree m x a
+  | EF2 _ a b => var_agree m x a && var_agree m x b
+  | EFN _ l => forallb (var_agree m x) l
+  | EFunSym _ l => forallb (var_agree m x) l
+  | ELex _ a b => var_agree m x a && var_agree m x b
+  | EDeriv a l => var_agree m x a && forallb (var_agree m x) l
+  | ESubs a d => var_agree m x a && forallb (fun p => var_agree m x (fst p) && var_agree m x (snd p)) d
+  | EPw l => forallb (fun p => var_agree m x (fst p) && var_agree m x (snd p)) l
+  | EInterval s t _ _ => var_agree m x s && var_agree m x t
+  end.
+
+(* the differentiation variable of the API is a Symbol (or its subclass Dummy) *)
+Definition is_symbol (e : expr) : bool := match e with ESym _ | EDummy _ _ => true | _ => false end.
+
+(* classes whose bvisit returns an unevaluated Derivative (or a Piecewise, or throws) even when x
+   does not occur: excluded from the "exactly zero" theorem, with a refutation witness *)
+Definition f1_absent_ok (code : N) : bool :=
+  memN code f1_codes && negb (code =? TC_UnevaluatedExpr) && negb (code =? TC_Not).
+Definition f2_absent_ok (code : N) : bool :=
+  memN code f2_codes && negb (mem_code code boolean_codes).
+Fixpoint absent_guard (e : expr) : bool :=
+  match e with
+  | ENum _ | EConst _ | ESym _ | EDummy _ _ => true
+  | EAdd _ d => forallb (fun p => absent_guard (fst p)) d
+  | EMul _ d => forallb (fun p => absent_guard (fst p) && absent_guard (snd p)) d
+  | EPow b ex => absent_guard b && absent_guard ex
+  | EF1 code a => f1_absent_ok code && absent_guard a
+  | EF2 code a b => f2_absent_ok code && absent_guard a && absent_guard b
+  | EFN code l => (code =? TC_LeviCivita) && forallb absent_guard l
+  | EFunSym _ l => forallb absent_guard l
+  | EDeriv a l => absent_guard a && forallb absent_guard l
+  | ESubs a d => absent_guard a && forallb (fun p => absent_guard (fst p) && absent_guard (snd p)) d
+  | EPw _ | ELex _ _ _ | EBool _ | EInterval _ _ _ _ | EAtom _ => false
+  end.
 
 (* ---------- what the hand transcription was written against ---------- *)
 Local Open Scope string_scope.
